@@ -364,7 +364,7 @@ pub fn conclude(root: &str, meta: &Meta, tier: Tier, seed: u64, wall: f64, rep: 
     ranked.sort_by_key(|x| (x.0, x.1));
     for (_, _, v) in ranked.iter().take(12) {
         let path = format!("{dir}/{:016x}.json", hash64(&v.key));
-        let mut body = json!({"property": meta.id, "key": v.key, "what": v.what, "case": v.case,
+        let mut body = json!({"property": meta.id, "key": v.key, "what": v.what, "case": v.case, "seed": seed,
             "replay": format!("./check {} --replay {}", meta.id, path)});
         let mut what = v.what.clone();
         if let Some(l) = &label {
